@@ -43,6 +43,7 @@ class AbsObj:
         if c is None:
             c = Cell(Lazy(ty, NameBacking('obj[' + _short(self.id) + ']')))
             eng.memo[key] = c
+            eng.memo[('cellobj', id(c))] = self
         return c
 
     def ptr_binop(self, eng, op, a, b):
@@ -55,6 +56,20 @@ class AbsObj:
 
     def __repr__(self):
         return f'obj<{self.ty}>({_short(self.id)})'
+
+
+def object_of(e, v):
+    """the managed object a value denotes: an object reference, or a reference to the data of one (after auto-deref)"""
+    while True:
+        if isinstance(v, AbsObj):
+            return v
+        if isinstance(v, Ref):
+            o = e.memo.get(('cellobj', id(v.cell)))
+            if o is not None:
+                return o
+            v = v.cell.get(e)
+            continue
+        raise Unsupported('expected a managed object, got ' + type(v).__name__)
 
 
 def _short(t):
